@@ -152,6 +152,28 @@ def conversions(ctx, kind, L, check_passthrough=True):
         ctx.violation(f'roundtrip:{kind}:{r[0]}', r[1])
     for n in notes:
         ctx.label('note:' + n)
+    # ---- a YANG list whose entries carry their position in an explicit key (coef_order of the noise-figure polynomial)
+    # means the same thing in whatever order its entries are written: the legacy list is ordered by that key
+    def reverse_positional(x):
+        if isinstance(x, dict):
+            return {k: reverse_positional(v) for k, v in x.items()}
+        if isinstance(x, list):
+            y = [reverse_positional(v) for v in x]
+            return y[::-1] if len(y) > 1 and all(isinstance(v, dict) and 'coef_order' in v for v in y) else y
+        return x
+    Yr = reverse_positional(Y)
+    if Yr != Y:
+        ctx.label('yang-positional-lists-reversed')
+        try:
+            Cr = yang_to_legacy(copy.deepcopy(Yr))
+            if kind == 'edfa-config' and isinstance(Cr, dict) and list(Cr) == ['gnpy-edfa-config:edfa-config']:
+                Cr = Cr['gnpy-edfa-config:edfa-config']
+            for r in _strict(kind, C, Cr):
+                ctx.violation(f'yang-list-order:{kind}:{r[0]}', r[1])
+        except ly.Error as e:
+            msgs = e.args[1] if len(e.args) > 1 else []
+            what = msgs[0].what if msgs else str(e)
+            ctx.violation(f'yang-list-order:{kind}:rejected:{_norm_msg(what)}', f'{what} @ {msgs[0].where if msgs else ""}')
     if check_passthrough:
         try:
             P = yang_to_legacy(copy.deepcopy(L))
